@@ -10,6 +10,7 @@ the sqlite rows (read-only sqlite3 connection):
 """
 import os
 import random
+import collections
 import sqlite3
 
 from vf.refs import tx as rtx
@@ -27,7 +28,7 @@ RULE = ('random histories of 12-45 operations over {new_key, get_key, new_key_ch
         '#keys, #txs) are counted too')
 TRUSTED_BASE = ['vf/chain_model.py (truth about outpoints)', 'vf/wallet_ref.py (which addresses are the wallet\'s)', 'sqlite3 read-only connection']
 ASSUMPTIONS = ['a second long-lived handle opened before an operation is not required to see it; only the operating handle and fresh handles are judged',
-               'I3 is asserted only while the wallet is in sync with a healthy provider (not after a lagging rescan or transaction_delete)',
+               'I3 is asserted only while the wallet is in sync with a healthy provider (not after a lagging rescan or transaction_delete); outputs of an address with 20 or more unspent outputs may be missing (utxos_update fetches max_utxos=20 per address and call)',
                'a rejected or failed broadcast counts as "nothing happened"']
 
 K_BAL_STALE = 'C08/operating-handle/balance-kept-when-account-emptied'
@@ -358,8 +359,15 @@ class History:
                 self.viol(None, 'I4 %s handle: outpoint %s:%d consumed by a sent transaction is listed as unspent' % (which, op_[0][:12], op_[1]), op_, 'not listed')
         # I3
         if self.sync and lib_set != self.E:
+            # utxos_update fetches at most max_utxos (default 20) outputs per address and call (documented): outputs of an
+            # address that holds 20 or more unspent outputs may legitimately be missing; nothing may ever be extra
+            crowded = collections.Counter(u['address'] for u in self.CH.unspent(self.known).values())
+            absent = [k for k in set(self.E) - set(lib_set) if crowded.get(self.CH.utxos[k]['address'], 0) < 20]
+            if not absent and not (set(lib_set) - set(self.E)):
+                self.col.probe('i3_page_limit_skipped')
+                return res
             extra = sorted(set(lib_set) - set(self.E))[:3]
-            missing = sorted(set(self.E) - set(lib_set))[:3]
+            missing = sorted(absent)[:3]
             self.viol(None, 'I3 %s handle: unspent set differs from the model (extra %d, missing %d)' % (which, len(set(lib_set) - set(self.E)), len(set(self.E) - set(lib_set))),
                       {'extra': extra, 'missing': missing}, 'equal sets')
         return res
